@@ -24,8 +24,10 @@ MANIFEST = dict(
               "pdsh/pdcp binaries against the compiled model + specification oracle on the real -q dump / exit status",
     text="Theorems in lean/PdshVerif/Props/C18.lean about the model Opt/Settings.lean: every setting equals the conversion "
          "of command line <|> environment <|> default (all option orders, any other options present), bad values are "
-         "refused and an accepted fanout is >= 1 in the repaired variant, with kernel-checked counterexamples for the "
-         "unchanged code (-f 0, FANOUT=, -f -1, -f 4294967297, -t -4294967295). The model is executed against the real "
+         "refused and an accepted fanout is >= 1 in the repaired variant, valid settings are accepted and take exactly the "
+         "value written (accepts_valid, takes_value_given), values given per target in -w words are checked too, with "
+         "kernel-checked counterexamples for the unchanged code (-f 0, FANOUT=, -f -1, -f 4294967297, -t -4294967295, "
+         "over-long user@, -M after a module option with argument). The model is executed against the real "
          "binaries on generated environment x argument combinations; the real observations are judged by Opt/Spec.lean.",
     design_ref="DESIGN.md section 5 C18, section 6 D4 D5",
     note="Lean 4.33 kernel; axioms propext/Classical.choice/Quot.sound at most (audited per theorem every run); hand-written "
@@ -181,7 +183,8 @@ def gen_wcoll(rng, files):
         us = rng.choice([None, None, None, "bob", "alice_1", "u" * 255, "u" * 256, "u" * 257, "u" * 300, ""])
         hosts = rng.choice(["foo", "bar", "h[0-2]", "n1", "a1,a2"])
         if rng.random() < 0.06:
-            words.append("bob@exec:" + hosts)           # user before the transport: not of the documented form
+            # user before the transport: not of the documented form (also with loaded module names on both sides)
+            words.append(rng.choice(["bob@exec:", "exec@rsh:", "rsh@exec:"]) + hosts)
             malformed = True
             continue
         w = hosts
@@ -665,7 +668,7 @@ def run(ctx):
                     ctx.disagreement("opt model vs pdsh -L (module selection)", "active module %s, model `%s`" % (w, m), case)
                 if c.oracle and sp != "ok":
                     for clause in sp.split(" "):
-                        if clause.startswith("misc:cmdline") and any(l in "ga" for l, _ in c.opts):
+                        if clause.startswith("misc:") and any(l in "ga" for l, _ in c.opts):
                             # wrong only because of an option that a module provides ?  the same case without them
                             c2 = Case("dsh", [o for o in c.opts if o[0] not in "ga"], c.env, c.operands)
                             rc2, out2, _ = real.run("dsh", ["-L"] + c2.argv(), dict(c.env, PDSH_MODULE_DIR=moddir), user=1000)
